@@ -232,8 +232,12 @@ impl World {
         self.tr.emit(&v);
     }
 
-    fn new_vfs(&mut self, opts: VfsOptions) {
-        self.vfs = Arc::new(Vfs::new(opts));
+    fn new_vfs(&mut self, opts: VfsOptions, remove_pseudo_root: bool) {
+        let mut v = Vfs::new(opts);
+        if remove_pseudo_root {
+            v.set_remove_pseudo_root();
+        }
+        self.vfs = Arc::new(v);
         self.server = Server::new(self.vfs.clone());
     }
 
@@ -378,6 +382,45 @@ impl World {
         }
         if step["idx"].is_i64() {
             ev["pred"] = json!({"idx": step["idx"]});
+        }
+        self.k += 1;
+        self.emit(ev);
+    }
+
+    /// restore_mount() on the live instance: re-attach a new instance of a backend at the index and path of a
+    /// current mount (no event if the path is not mounted)
+    fn do_remount(&mut self, step: &Value) {
+        let path = step["path"].as_str().unwrap().to_string();
+        let (idx, given_path) = match self.mounts.get(&canon(&path)) {
+            Some((_, i, p)) => (*i, p.clone()),
+            None => return,
+        };
+        let bid = step["b"].as_str().unwrap().to_string();
+        let key = self.backend(&bid);
+        let fs = self.bes[&key].fs.clone();
+        let ord = self.bes[&key].ord;
+        let sc = self.scale;
+        let root_ino = step["root"].as_str().map(|s| s.parse::<u64>().unwrap()).unwrap_or(ord * 1000 + 1);
+        let ru = step["ruid"].as_u64().unwrap_or(0) as u32 * sc;
+        let rg = step["rgid"].as_u64().unwrap_or(0) as u32 * sc;
+        *fs.root.lock().unwrap() = (mkentry(root_ino, ru, rg, libc::S_IFDIR | 0o755), MAX_INO);
+        fs.set(Ret::Unit);
+        self.drain_logs();
+        let vfs = self.vfs.clone();
+        let boxed = Box::new(fs.clone());
+        let p2 = given_path.clone();
+        let res = std::panic::catch_unwind(std::panic::AssertUnwindSafe(move || vfs.restore_mount(boxed, idx, &p2)));
+        let calls: Vec<Value> = self.drain_logs().iter().map(Self::call_event).collect();
+        let comps: Vec<&str> = given_path.split('/').collect();
+        let mut ev = json!({"e": "Remount", "k": self.k, "path": given_path, "comps": comps, "abs": given_path.starts_with('/'), "backend": bid, "idx": idx,
+            "root": {"low": (root_ino & MAX_INO).to_string(), "uid": idj(ru), "gid": idj(rg)}, "calls": calls});
+        match res {
+            Ok(Ok(())) => {
+                ev["ret"] = json!("ok");
+                self.mounts.insert(canon(&path), (key, idx, given_path.clone()));
+            }
+            Ok(Err(_)) => ev["ret"] = json!("err"),
+            Err(_) => ev["ret"] = json!("panic"),
         }
         self.k += 1;
         self.emit(ev);
@@ -590,6 +633,13 @@ impl World {
                 } else {
                     let j = t["j"].as_u64().unwrap_or(0) as usize;
                     self.pool[self.pool.len() - 1 - (j % self.pool.len().min(64))]
+                }
+            }
+            "mpath" => {
+                // root of the mount at this path (the pseudo root if there is none)
+                match self.mounts.get(&canon(t["path"].as_str().unwrap_or("/"))).cloned() {
+                    Some((b, i, _)) => ((i as u64) << 56) | (self.bes[&b].fs.root.lock().unwrap().0.inode & MAX_INO),
+                    None => 1,
                 }
             }
             "mroot_idx" => {
@@ -1014,10 +1064,11 @@ impl World {
         opts.id_mapping = self.gmap;
         opts.no_open = o["no_open"].as_bool().unwrap_or(true);
         opts.no_opendir = o["no_opendir"].as_bool().unwrap_or(true);
-        self.new_vfs(opts);
+        let rmroot = o["remove_pseudo_root"].as_bool().unwrap_or(false);
+        self.new_vfs(opts, rmroot);
         let kind = sc["kind"].as_str().unwrap_or("plain").to_string();
         self.emit(json!({"e": "Reset", "kind": kind, "pair": sc["pair"].as_u64().unwrap_or(0), "cut": sc["cut"].as_i64().unwrap_or(-1), "id": sc["id"],
-            "gmap": mapj(self.gmap), "opts": {"no_open": opts.no_open, "no_opendir": opts.no_opendir}, "src": sc["src"]}));
+            "gmap": mapj(self.gmap), "opts": {"no_open": opts.no_open, "no_opendir": opts.no_opendir, "remove_pseudo_root": rmroot}, "src": sc["src"]}));
         if let Some(n) = sc["emul"].as_u64() {
             self.do_prefill(n);
         }
@@ -1031,6 +1082,7 @@ impl World {
             match st["op"].as_str().unwrap_or("") {
                 "mount" => self.do_mount(st),
                 "umount" => self.do_umount(st),
+                "remount" => self.do_remount(st),
                 "init" => self.do_init(st),
                 "saverestore" => self.do_saverestore(st),
                 "nop" => {}
@@ -1082,10 +1134,14 @@ fn gen(seed: u64, nsc: usize, nmounts: usize, shape: &str, out: &str) {
     let mut tr = Trace::create(out);
     for s in 0..nsc {
         let mut rng = Rng::new(mix(seed, s as u64 + 1));
-        let shape = if shape == "mix" { *rng.pick(&["churn", "churn", "fill", "nomap"]) } else { shape };
+        let shape = if shape == "mix" { *rng.pick(&["churn", "churn", "fill", "nomap", "rmroot"]) } else { shape };
+        // "rmroot": set_remove_pseudo_root(); mount points are leaves, umounts that must be refused (intermediate
+        // pseudo directories, "/", paths never mounted) are mixed in, the probe battery walks to every mount path
+        let rmroot = shape == "rmroot";
         let g = if shape == "nomap" || rng.chance(1, 3) { (0, 0, 0) } else { gen_map(&mut rng) };
         let paths: Vec<&str> = match shape {
             "fill" => vec![],
+            "rmroot" => vec!["/x/y", "/x/z", "/w", "/v/u/t", "/x/./y", "/v/u/../u/t"],
             _ => vec!["/", "/a", "/a/b", "/b", "/c/d/e", "/a/./b", "/b/", "//a", "/c/../a", "/a/b/../b", "rel", ""],
         };
         let mut steps: Vec<Value> = Vec::new();
@@ -1117,7 +1173,13 @@ fn gen(seed: u64, nsc: usize, nmounts: usize, shape: &str, out: &str) {
             };
             if do_umount {
                 let j = rng.below(mounted.len() as u64) as usize;
-                let p = if rng.chance(1, 10) { "/nonexistent".to_string() } else { mounted.swap_remove(j) };
+                let p = if rmroot && rng.chance(1, 2) {
+                    rng.pick(&["/x", "/", "/q", "/v/u", "/v", "/x/never", "/x/"]).to_string()
+                } else if rng.chance(1, 10) {
+                    "/nonexistent".to_string()
+                } else {
+                    mounted.swap_remove(j)
+                };
                 steps.push(json!({"op": "umount", "path": p}));
             } else {
                 let p = if shape == "fill" {
@@ -1140,6 +1202,15 @@ fn gen(seed: u64, nsc: usize, nmounts: usize, shape: &str, out: &str) {
                 }
                 nm += 1;
             }
+            // re-attach a backend in place (restore_mount on the live instance), then requests on that mount
+            if shape != "fill" && !mounted.is_empty() && rng.chance(1, 6) {
+                let p = mounted[rng.below(mounted.len() as u64) as usize].clone();
+                steps.push(json!({"op": "remount", "path": p, "b": format!("b{}", rng.range(1, 4)), "ruid": pick_id(&mut rng, &[g]), "rgid": pick_id(&mut rng, &[g]),
+                    "root": (rng.range(1, 1 << 40)).to_string()}));
+                for rop in ["getattr", "lookup", "readdirplus"] {
+                    steps.push(json!({"op": "req", "rop": rop, "seed": rng.next() >> 1, "t": {"t": "mpath", "path": p}, "fail": false}));
+                }
+            }
             if rng.chance(1, 60) {
                 steps.push(json!({"op": "init", "empty": rng.chance(1, 4), "zmo": rng.chance(1, 2), "zmod": rng.chance(1, 2)}));
             }
@@ -1147,8 +1218,18 @@ fn gen(seed: u64, nsc: usize, nmounts: usize, shape: &str, out: &str) {
             req(&mut rng, &mut steps, n);
         }
         let _ = nreq;
-        tr.emit(&json!({"id": format!("rnd-{shape}-{s}"), "src": "random", "kind": "plain", "seed": rng.next() >> 1, "g": mj(g), "scale": 1,
-            "opts": {"no_open": rng.chance(1, 2), "no_opendir": rng.chance(1, 2)}, "nomap": shape == "nomap" && g.2 == 0, "steps": steps}));
+        let mut sc = json!({"id": format!("rnd-{shape}-{s}"), "src": "random", "kind": "plain", "seed": rng.next() >> 1, "g": mj(g), "scale": 1,
+            "opts": {"no_open": rng.chance(1, 2), "no_opendir": rng.chance(1, 2), "remove_pseudo_root": rmroot}, "nomap": shape == "nomap" && g.2 == 0});
+        if rmroot {
+            // at the end every mount is unmounted by its path; the battery after each step walks to every mount path
+            for p in mounted.iter() {
+                steps.push(json!({"op": "umount", "path": p}));
+            }
+            sc["autoprobe"] = json!(1);
+            sc["paths"] = json!(["/x/y", "/x/z", "/w", "/v/u/t"]);
+        }
+        sc["steps"] = Value::Array(steps);
+        tr.emit(&sc);
     }
     tr.flush();
 }
